@@ -171,6 +171,7 @@ func runProcChild(sp ProcSpec, timeout time.Duration) (*ProcResult, int, string,
 	var out bytes.Buffer
 	cmd.Stdout, cmd.Stderr = &out, &out
 	cmd.Dir = workDir()
+	cmd.WaitDelay = 5 * time.Second
 	if err := cmd.Start(); err != nil {
 		return nil, -1, err.Error(), false
 	}
